@@ -31,10 +31,15 @@ def build_case(u):
     forms = {"pdu": gen.g_lenform(u), "vbl": gen.g_lenform(u), "msg": gen.g_lenform(u), "vb": gen.g_lenform(u)}
     # a legal, unusual v3 reply: non-empty contextName in the scoped PDU (the value must come through all the same)
     ctx_name = u.take(u.below(24)) if (cfg.version == "v3" and u.below(4) == 0) else b""
+    # encrypted replies: what pads the scoped PDU to the cipher block is arbitrary (RFC 3414 8.1.1.2: "the actual pad value
+    # is irrelevant"); agents use zeroes, the pad count or leftovers
+    pad = None
+    if cfg.version == "v3" and cfg.priv and u.below(3) == 0:
+        pad = bytes((x | 1) for x in u.take(7 if cfg.priv == "des" else u.below(16)))
     if op == "get":
         names = [long_oid(u) if u.below(10) == 0 else gen.g_oid(u, 2, 20)]
         vals = [gen.g_data_value(u) if u.below(8) else gen.g_null(u)]
-        return {"cfg": cfg, "op": op, "driver": driver, "names": names, "vals": vals, "forms": forms, "base": None, "chunk": 1, "ctx_name": ctx_name}
+        return {"cfg": cfg, "op": op, "driver": driver, "names": names, "vals": vals, "forms": forms, "base": None, "chunk": 1, "ctx_name": ctx_name, "pad": pad}
     if op == "get_many":
         n = u.below(7) if u.bool(2, 3) else u.below(41)
         names = []
@@ -43,7 +48,7 @@ def build_case(u):
             if o not in names:
                 names.append(o)
         vals = [gen.g_data_value(u) if u.below(8) else gen.g_null(u) for _ in names]
-        return {"cfg": cfg, "op": op, "driver": driver, "names": names, "vals": vals, "forms": forms, "base": None, "chunk": 1, "ctx_name": ctx_name}
+        return {"cfg": cfg, "op": op, "driver": driver, "names": names, "vals": vals, "forms": forms, "base": None, "chunk": 1, "ctx_name": ctx_name, "pad": pad}
     # walks: names under a base, strictly increasing
     base = gen.g_oid(u, 2, 6)
     n = u.range(1, 12)
@@ -57,12 +62,12 @@ def build_case(u):
     # after its first row: what that walk left unread belongs to no later response
     prior = driver != "nb" and u.bool()
     return {"cfg": cfg, "op": op, "driver": driver, "names": names, "vals": vals, "forms": forms, "base": base, "chunk": chunk, "ctx_name": ctx_name,
-            "prior": prior}
+            "prior": prior, "pad": pad}
 
 
 def describe(c):
     return {"cfg": c["cfg"].describe(), "op": c["op"], "driver": c["driver"], "forms": c["forms"], "base": c["base"],
-            "chunk": c["chunk"], "ctx_name": c.get("ctx_name", b""), "prior": c.get("prior", False), "varbinds": [[rb.oid_text(n), v.kind, v.note, v.tlv, repr(v.py)] for n, v in zip(c["names"], c["vals"])],
+            "chunk": c["chunk"], "ctx_name": c.get("ctx_name", b""), "prior": c.get("prior", False), "pad": c.get("pad"), "varbinds": [[rb.oid_text(n), v.kind, v.note, v.tlv, repr(v.py)] for n, v in zip(c["names"], c["vals"])],
             "_cfg": gen.cfg_to_json(c["cfg"]), "_names": [list(n) for n in c["names"]], "_tlvs": [v.tlv for v in c["vals"]],
             "_pys": [py_to_json(v) for v in c["vals"]], "_kinds": [v.kind for v in c["vals"]]}
 
@@ -99,7 +104,7 @@ def execute(G, c):
             rows = [rb.varbind(rb.enc_oid(PRIOR_BASE + (i,)), rb.enc_int(-7000 - i)) for i in range(1, 5)]
             return [ag.build_reply(cfg, req, rows if req.get("pdu_tag") == rb.PDU_GETBULK else rows[:1])]
         if op in ("get", "get_many"):
-            return [ag.build_reply(cfg, req, vbs, forms=forms, ctx_name=c.get("ctx_name", b""))]
+            return [ag.build_reply(cfg, req, vbs, forms=forms, ctx_name=c.get("ctx_name", b""), pad_bytes=c.get("pad"))]
         # walk: serve next chunk, then endOfMibView
         i = state["pos"]
         if i >= len(vbs):
@@ -107,7 +112,7 @@ def execute(G, c):
             return [ag.build_reply(cfg, req, [rb.varbind(rb.enc_oid(last), rb.tlv(rb.T_ENDOFMIBVIEW, b""))], forms=forms)]
         k = 1 if op == "getnext" else c["chunk"]
         state["pos"] = i + k
-        return [ag.build_reply(cfg, req, vbs[i:i + k], forms=forms, ctx_name=c.get("ctx_name", b""))]
+        return [ag.build_reply(cfg, req, vbs[i:i + k], forms=forms, ctx_name=c.get("ctx_name", b""), pad_bytes=c.get("pad"))]
 
     if op == "get":
         call = ("get", "1.3.6.1.2.1.1.1.0")
@@ -188,7 +193,7 @@ def replay(rep, case, body=None):
     G = drivers.load()
     vals = [gen.Val(k, py_from_json(p), t) for k, p, t in zip(case["_kinds"], case["_pys"], case["_tlvs"])]
     c = {"cfg": gen.cfg_from_json(case["_cfg"]), "op": case["op"], "driver": case["driver"], "forms": case["forms"],
-         "base": tuple(case["base"]) if case["base"] else None, "chunk": case["chunk"], "ctx_name": case.get("ctx_name", b""), "prior": case.get("prior", False),
+         "base": tuple(case["base"]) if case["base"] else None, "chunk": case["chunk"], "ctx_name": case.get("ctx_name", b""), "prior": case.get("prior", False), "pad": case.get("pad"),
          "names": [tuple(n) for n in case["_names"]], "vals": vals}
     try:
         execute(G, c)
